@@ -260,100 +260,26 @@ def pass_only_rule(ctx: Ctx, rule: str) -> None:
 
     # which results credit their worker: exactly those of executions that provided the state (PASS, and WARN = passed with
     # warnings; the runner itself turns an unusually slow PASS into WARN) — never a failed, skipped or pending one
-    skips = [i for i in outer[0].body if isinstance(i, ast.If) and len(i.body) == 1 and isinstance(i.body[0], ast.Continue) and not i.orelse
-             and f"{res}['status']" in ast.unparse(i.test)]
-    credited = None
-    if len(skips) == 1 and outer[0].body[0] is skips[0]:
-        skipped = _truth_over_statuses(skips[0].test, f"{res}['status']")
-        credited = None if skipped is None else set(STATUS_UNIVERSE_UP) - skipped
-    okc = credited == {"PASS", "WARN"}
-    ctx.record(rule, "TABLE", fref, "a result credits its worker as a producer exactly when its status is PASS or WARN", okc, {"credited": sorted(credited) if credited is not None else None},
-               "" if okc else (f"the statuses that credit a producing worker are {sorted(credited) if credited is not None else 'not a plain status test'}: "
-                               + ("a setup that ended WARN (e.g. a slow PASS, turned into WARN by the runner) produced its state but its worker's pool is not named to the dependants"
-                                  if credited is not None and "WARN" not in credited else "a worker is credited with a state it did not produce")))
-    # no other way to fill the accumulator
-    other = [n for n in ast.walk(fn.node) if isinstance(n, (ast.Assign, ast.AugAssign))
-             and acc in {t.id for t in ast.walk(n.targets[0] if isinstance(n, ast.Assign) else n.target) if isinstance(t, ast.Name)}]
-    ok = len(other) == 1 and isinstance(other[0], ast.Assign) and ast.unparse(other[0].value) == "set()"
-    ctx.record(rule + "b", "PROV", fref, f"{acc} starts empty and is only filled by the guarded add", ok, {},
-               "" if ok else "the set of producing workers can be filled by another statement")
-    # the id added is one whose text occurs in the result's name
-    adds = [c for c in calls_in(fn.node) if is_add(c)]
-    ok2 = False
-    if len(adds) == 1 and adds[0].args and isinstance(adds[0].args[0], ast.Name):
-        wid = adds[0].args[0].id
-        views2 = [v for v in views if any(c is adds[0] for _, c in v.calls(is_add))]
-        ok2 = bool(views2) and all(
-            norm.implies(v.premise(next(i for i, c in v.calls(is_add) if c is adds[0]), 0),
-                         norm.formula(ast.parse(f"{wid} in {res}['name']", mode="eval").body))
-            for v in views2)
-    ctx.record(rule + "c", "GUARD", fref, "a worker id is added only if it occurs in the crediting result's test name", ok2, {},
-               "" if ok2 else "a worker id is credited with a result whose name does not contain it")
+    # path based: the statuses under which the crediting add is reachable in one iteration (guard-continue, nested if, ... alike)
+    from ..kinds import loop_iteration_views
 
-
-def _truth_over_statuses(test: ast.AST, subject: str):
-    """For a boolean expression over comparisons of `subject` with constants: the statuses for which it is true (None if not interpretable)."""
-    def ev(n, s):
-        if isinstance(n, ast.BoolOp):
-            vals = [ev(v, s) for v in n.values]
-            if any(v is None for v in vals):
-                return None
-            return all(vals) if isinstance(n.op, ast.And) else any(vals)
-        if isinstance(n, ast.UnaryOp) and isinstance(n.op, ast.Not):
-            v = ev(n.operand, s)
-            return None if v is None else not v
-        if isinstance(n, ast.Compare) and len(n.ops) == 1 and ast.unparse(n.left) == subject:
-            c = n.comparators[0]
-            if isinstance(c, ast.Constant):
-                vals = c.value
-            elif isinstance(c, (ast.List, ast.Tuple, ast.Set)) and all(isinstance(e, ast.Constant) for e in c.elts):
-                vals = [e.value for e in c.elts]
-            else:
-                return None
-            op = n.ops[0]
-            if isinstance(op, ast.Eq):
-                return s == vals
-            if isinstance(op, ast.NotEq):
-                return s != vals
-            if isinstance(op, ast.In):
-                return s in vals
-            if isinstance(op, ast.NotIn):
-                return s not in vals
-        return None
-    out = set()
-    for s in STATUS_UNIVERSE_UP:
-        v = ev(test, s)
-        if v is None:
-            return None
-        if v:
-            out.add(s)
-    return out
-
-
-def pass_only_rule(ctx: Ctx, rule: str) -> None:
-    fref = f"{NODE}:TestNode.shared_result_worker_ids"
-    fn = ctx.repo.func(fref)
-    outer = [l for l in ast.walk(fn.node) if isinstance(l, ast.For) and ast.unparse(l.iter) == "self.shared_results"]
-    if len(outer) != 1 or not isinstance(outer[0].target, ast.Name):
-        raise AnalysisError(f"{fref}: loop over self.shared_results not found")
-    res = outer[0].target.id
-    views = function_views(ctx, fref, None)
-    ret = [n for n in ast.walk(fn.node) if isinstance(n, ast.Return)]
-    if len(ret) != 1 or not isinstance(ret[0].value, ast.Name):
-        raise AnalysisError(f"{fref}: expected a single `return <name>`")
-    acc = ret[0].value.id
-
-    def is_add(c: ast.Call) -> bool:
-        return call_name(c) in ("add", "update", "append", "extend") and recv_text(c) == acc
-
-    # which results credit their worker: exactly those of executions that provided the state (PASS, and WARN = passed with
-    # warnings; the runner itself turns an unusually slow PASS into WARN) — never a failed, skipped or pending one
-    skips = [i for i in outer[0].body if isinstance(i, ast.If) and len(i.body) == 1 and isinstance(i.body[0], ast.Continue) and not i.orelse
-             and f"{res}['status']" in ast.unparse(i.test)]
-    credited = None
-    if len(skips) == 1 and outer[0].body[0] is skips[0]:
-        skipped = _truth_over_statuses(skips[0].test, f"{res}['status']")
-        credited = None if skipped is None else set(STATUS_UNIVERSE_UP) - skipped
+    credited = set()
+    understood = True
+    for v in loop_iteration_views(ctx, fref, outer[0], None):
+        if not any(True for _ in v.calls(is_add)):
+            continue
+        first_add = next(i for i, c in v.calls(is_add))
+        allowed = set(STATUS_UNIVERSE_UP)
+        for st in v.steps[:first_add]:
+            if st.kind == "cond" and f"{res}['status']" in ast.unparse(st.node):
+                t = _truth_over_statuses(st.node, f"{res}['status']")
+                if t is None:
+                    understood = False
+                    break
+                allowed &= t if st.pol else (set(STATUS_UNIVERSE_UP) - t)
+        credited |= allowed
+    if not understood:
+        credited = None
     okc = credited == {"PASS", "WARN"}
     ctx.record(rule, "TABLE", fref, "a result credits its worker as a producer exactly when its status is PASS or WARN", okc, {"credited": sorted(credited) if credited is not None else None},
                "" if okc else (f"the statuses that credit a producing worker are {sorted(credited) if credited is not None else 'not a plain status test'}: "
